@@ -4530,6 +4530,32 @@ impl SchedulerCoordinator {
     }
 }
 
+/// Verification hooks (feature `echo_verif`): reach tick-overflow failure kinds without 2^64 passes.
+#[cfg(feature = "echo_verif")]
+pub mod verif {
+    use super::{GlobalTick, WorldlineId, WorldlineRuntime, WorldlineTick};
+
+    /// Overwrites the runtime's global tick counter.
+    pub fn set_global_tick(runtime: &mut WorldlineRuntime, raw: u64) {
+        runtime.global_tick = GlobalTick::from_raw(raw);
+    }
+
+    /// Overwrites one worldline frontier's tick counter; returns false if unknown.
+    pub fn set_frontier_tick(
+        runtime: &mut WorldlineRuntime,
+        worldline: &WorldlineId,
+        raw: u64,
+    ) -> bool {
+        match runtime.worldlines.frontier_mut(worldline) {
+            Some(f) => {
+                f.frontier_tick = WorldlineTick::from_raw(raw);
+                true
+            }
+            None => false,
+        }
+    }
+}
+
 #[cfg(test)]
 #[allow(clippy::unwrap_used, clippy::expect_used, clippy::panic)]
 mod tests {
